@@ -257,6 +257,8 @@ def run(rep, tier, seed):
         for cl in rj["clauses"]:
             report(f"{e['op']}:{cl}:history", f"TLC rejected event {rj['event']} of history {rj['trace']}: {rj['clauses']}",
                    {"kind": "history", "init": tr["init"], "events": tr["events"][:rj["event"]], "pre": pre})
+    from harness import suite
+    suite.run_for(rep, "C13")
     rep.cov["evaluations"] = nP + applied + nev
     rep.cov["distinct_nontrivial"] = len(seen)
     rep.cov["rule"] = "distinct = reachable (abstract namespace state, dict-alias partition) pairs of the implementation, each expanded with every operation TLC's graph allows"
